@@ -275,3 +275,9 @@ Qed.
 Example C01_rsmi_pipeline_explicit_nonvacuous :
   exists J r' p', rsmi_to_its_s ex_read true false = Some J /\ its_to_rsmi_s_opt ex_write true J = Some (r', p') /\ r' = true /\ p' = false.
 Proof. eexists. eexists. eexists. split; [reflexivity|]. split; [reflexivity|]. split; reflexivity. Qed.
+
+Example C01_rsmi_to_its_sel_nonvacuous :
+  rsmi_to_its_sel all_sel ex_mr ex_mp <> None /\
+  option_map (fun J => option_map (fun b => a_hc (i_G b)) (label J 1%N)) (rsmi_to_its_sel (AS true true false true true true) ex_mr ex_mp) = Some (Some 0) /\
+  option_map (fun J => option_map (fun b => a_hc (i_G b)) (label J 1%N)) (rsmi_to_its_sel all_sel ex_mr ex_mp) = Some (Some 3).
+Proof. split; [discriminate|]. split; reflexivity. Qed.
